@@ -224,6 +224,8 @@ class Builder:
             if self.leaf_cache is not None:
                 self.leaf_cache[repr(t)] = r
             return r
+        if c == "Gauss":
+            return self.gaussian(t)
         if c == "Un":
             x = self.build(t["arg"])
             n, p = t["op"]["n"], t["op"]["p"]
@@ -254,7 +256,10 @@ class Builder:
             for k, v in t["subs"]:
                 if v["c"] == "Num":
                     val = vals.scalar_to_float(v["v"])
-                    subs[k] = int(val) if v["dt"] != 0 else float(val)
+                    if v["dt"] == 0 and self.real_num_as_tensor:
+                        subs[k] = Tensor(np.array(float(val)))
+                    else:
+                        subs[k] = int(val) if v["dt"] != 0 else float(val)
                 elif v["c"] == "Var" and self.rename_as_str:
                     subs[k] = v["name"]
                 else:
@@ -286,4 +291,20 @@ class Builder:
         raise NotImplementedError(c)
 
     rename_as_str = False
+    real_num_as_tensor = False
     leaf_cache = None
+    gauss_form = "white_vec"      # which constructor parametrisation to use for Gauss leaves
+
+    def gaussian(self, t):
+        """Gauss leaf -> funsor.gaussian.Gaussian(white_vec, prec_sqrt, inputs)"""
+        from funsor.gaussian import Gaussian
+        ins = OrderedDict((n, dom_of(d)) for n, d in t["ins"])
+        batch = tuple(d["dt"] for _, d in t["ins"] if d["dt"] > 0 and not d["sh"])
+        dim = sum(int(np.prod(d["sh"])) if d["sh"] else 1 for _, d in t["ins"] if d["dt"] == 0)
+        rank = t["rank"]
+        S = np.array([vals.scalar_to_float(s) for s in t["S"]], dtype=np.float64).reshape(batch + (dim, rank))
+        w = np.array([vals.scalar_to_float(s) for s in t["w"]], dtype=np.float64).reshape(batch + (rank,))
+        if self.watch is not None:
+            self.watch.add_array(S, "prec_sqrt")
+            self.watch.add_array(w, "white_vec")
+        return Gaussian(white_vec=w, prec_sqrt=S, inputs=ins)
